@@ -127,6 +127,27 @@ def _attempt(kind, idx):
     return k
 
 
+class LayerStream:
+    """a stream a layer installs as sys.stdout / sys.stderr for its lifetime (a tee, a prefixing wrapper): it passes
+    everything on to the stream it replaced"""
+
+    def __init__(self, inner):
+        self._inner = inner
+
+    def __getattr__(self, name):
+        return getattr(self._inner, name)
+
+
+_swapped = []       # [layer idx, its stdout, its stderr, the stdout it replaced, the stderr it replaced]
+
+
+def own_streams():
+    """with a stream-swapping layer set up: are sys.stdout / sys.stderr the innermost such layer's streams?"""
+    if not _swapped:
+        return True
+    return sys.stdout is _swapped[-1][1] and sys.stderr is _swapped[-1][2]
+
+
 def make_hooks(idx, spec):
     hooks = {}
     if spec["setUp"]:
@@ -141,6 +162,9 @@ def make_hooks(idx, spec):
                 os._exit(0 if spec["dieInSetUp"] == "exit0" else 3)
             if raises:
                 raise_styled(spec.get("excStyle"), LayerError, "setUp of layer %d fails (attempt %d)" % (idx, k), hook="setUp")
+            if spec.get("swapStreams"):
+                _swapped.append([idx, LayerStream(sys.stdout), LayerStream(sys.stderr), sys.stdout, sys.stderr])
+                sys.stdout, sys.stderr = _swapped[-1][1], _swapped[-1][2]
         hooks["setUp"] = setUp
     if spec["tearDown"]:
         def tearDown(*a):
@@ -150,7 +174,10 @@ def make_hooks(idx, spec):
                 if att == k or att == 999999:
                     code = c
                     break
-            trace({"ev": "ltd", "l": idx, "r": ["ok", "raise", "notimpl"][code]})
+            trace({"ev": "ltd", "l": idx, "r": ["ok", "raise", "notimpl"][code], "own": own_streams()})
+            if code != 2 and _swapped and _swapped[-1][0] == idx:
+                sys.stdout, sys.stderr = _swapped[-1][3], _swapped[-1][4]
+                _swapped.pop()
             if spec.get("dieInTearDown"):
                 trace({"ev": "die", "how": spec["dieInTearDown"]})
                 sys.stdout.flush()
@@ -163,13 +190,13 @@ def make_hooks(idx, spec):
         hooks["tearDown"] = tearDown
     if spec["testSetUp"]:
         def testSetUp(*a):
-            trace({"ev": "tsu", "l": idx, "cap": captured()})
+            trace({"ev": "tsu", "l": idx, "cap": captured(), "own": own_streams()})
             if spec.get("testSetUpRaises"):
                 raise LayerError("testSetUp of layer %d fails" % idx)
         hooks["testSetUp"] = testSetUp
     if spec["testTearDown"]:
         def testTearDown(*a):
-            trace({"ev": "ttd", "l": idx, "cap": captured()})
+            trace({"ev": "ttd", "l": idx, "cap": captured(), "own": own_streams()})
             if spec.get("testTearDownRaises"):
                 raise LayerError("testTearDown of layer %d fails" % idx)
         hooks["testTearDown"] = testTearDown
